@@ -659,3 +659,35 @@ def unregistering_cancels_one_registration(ctx):
                       f'`while {src(loop.test) if loop else ""}: {src(c)}` removes every equal element', f)
     if not n:
         ctx.undecided(f'{f.qualname}:one call removes one registration', f.node, 'no list.remove / deletion by position found', f)
+
+
+@rule('C12.R8c', min_instances=1)
+def identifier_table_names_the_cache_keys(ctx):
+    """SecopClient._init_descriptive_data fills two tables in one loop: the accessible tables of the module
+    (`parameters[<iname>] = entry`, what updateValue looks the datatype up in) and self.internal, which maps the wire identifier
+    to (module, <name>) for every incoming message.  The name stored in self.internal is the SAME local that keys the accessible
+    tables - with the external name there (`_xyz` instead of `xyz`) every update, reply and error for that accessible is
+    resolved to a parameter the client does not know: no cache entry, no callback, the waiting request times out"""
+    m = ctx.m
+    ci = m.cls(roles.CLIENT)
+    n = 0
+    for name, f in sorted(ci.methods.items()):
+        stores = [(st, t) for st in body_walk(f.node) if isinstance(st, ast.Assign) for t in st.targets
+                  if isinstance(t, ast.Subscript) and src(t.value) == 'self.internal']
+        if not stores:
+            continue
+        keys = {t.slice.id for st in body_walk(f.node) if isinstance(st, ast.Assign) for t in st.targets
+                if isinstance(t, ast.Subscript) and src(t.value) != 'self.internal' and isinstance(t.slice, ast.Name)
+                and isinstance(t.value, ast.Name) and isinstance(st.value, (ast.Name, ast.Call, ast.Dict))}
+        for st, t in stores:
+            v = st.value
+            n += 1
+            ctx.analysed(f)
+            if not (isinstance(v, ast.Tuple) and len(v.elts) == 2 and isinstance(v.elts[1], ast.Name)) or not keys:
+                ctx.undecided(f'{f.qualname}:self.internal names the key of the accessible tables', st, f'`{src(st)}`: value / table keys not recognised', f)
+                continue
+            ctx.check(v.elts[1].id in keys, f'{f.qualname}:self.internal names the key of the accessible tables', st, f'`{v.elts[1].id}` also keys the accessible tables',
+                      f'`{src(st)}` records `{v.elts[1].id}`, but the accessible tables of the module are keyed by {sorted(keys)}: messages for an accessible whose '
+                      'external and internal names differ (custom accessibles, `_name`) are resolved to a name the tables do not hold', f)
+    if not n:
+        raise AnchorMissing('no store into self.internal found in SecopClient')
